@@ -7,6 +7,7 @@ from flosim.gen import cfg_with
 class C06(FloCheck):
     pid = "C06"
     design_ref = "§6 C06"
+    directed_files = ("flo-start-of-readied-framer-whose-aux-was-taken",)
     cfg = cfg_with(p_susp_sibling=0.3, depth=4, p_go_early=0.6, p_go_me_parent=0.2, nframes=(3, 7), p_child=0.8, p_under=0.25, p_ctx_extra=0.8, naux=(0, 2), p_caux=0.45, p_aux=0.15, p_bid=0.25, p_go=0.85)
     rule = ("generated programs with recorder actions in the enter, exit, re-enter and re-exit contexts of every frame, biased to "
             "transitions to self, ancestors, descendants and other subtrees and to transitions / stops while a conditional aux "
